@@ -23,7 +23,7 @@
     - [KRes client c0]: a new connection of [client] RESUMED a saved session: one marker per restored
       non-shared request, under the key of the NEW link; [c0] = the offset of the cursor the request
       was restored with.  It is the first event of its key; the first sweep starts at [c0] (if that
-      cursor is stale the jump goes to the log's base, which may lie on either side of [c0]);
+      cursor is stale the jump goes FORWARD to the log's base: [TraceRunBound.v]);
     - [KEnd client r wnd]: the connection of [client] (clean_session = false) was removed and its
       session saved: one marker per saved non-shared request, under the key of the OLD link; [r] =
       the offset of the saved (rewound) cursor, the RESUME POINT; [wnd] = the offsets of the
@@ -63,7 +63,7 @@ Definition nxt (a : kev) : N :=
 Definition ok_next (a b : kev) : Prop :=
   match b with
   | KFwd off _ => off = nxt a
-  | KJump from to => from = nxt a /\ (is_res a = false -> from <= to)
+  | KJump from to => from = nxt a /\ from <= to
   | KSub e => nxt a <= e
   | KRes _ _ => False
   | KEnd _ _ _ => False
@@ -561,7 +561,11 @@ Proof.
 Qed.
 
 Lemma ok_next_mono a b : is_res a = false -> ok_next a b -> nxt a <= nxt b.
-Proof. intros Ha. destruct b; cbn [ok_next nxt]; first [lia | contradiction | (intros [-> H]; now apply H)]. Qed.
+Proof. intros _. destruct b; cbn [ok_next nxt]; first [lia | contradiction]. Qed.
+
+(** ... also from a resume marker *)
+Lemma ok_next_mono' a b : ok_next a b -> nxt a <= nxt b.
+Proof. destruct b; cbn [ok_next nxt]; first [lia | contradiction]. Qed.
 
 (** neither a resume marker nor an end marker ever follows anything *)
 Lemma kchain_from_nores a l : kchain_from a l -> forall b, In b l -> is_res b = false /\ is_end b = false.
@@ -686,7 +690,7 @@ Qed.
 
 Lemma sweep_chain (l : list kev) (c0 base p : N) (st : bool) (fw : list (N * publish)) :
   kchain l ->
-  (forall a, last_opt l = Some a -> c0 = nxt a /\ (st = true -> is_res a = false -> c0 <= base)) ->
+  (forall a, last_opt l = Some a -> c0 = nxt a /\ (st = true -> c0 <= base)) ->
   p = (if st then base else c0) ->
   map fst fw = Nseq p (length fw) ->
   let evs := (if st then [KJump c0 base] else []) ++ map mkfwd fw in
